@@ -292,6 +292,9 @@ def execute(desc):
     stats.update({"digest": sim.digest(), "nevents": sim.nevents, "steps": sum(len(r["values"]) for r in runs_all),
                   "counters": dict(sim.counters), "sched_digest": sim.sched_digest(), "switches": sim.switches,
                   "points": len(pts), "runs": len(runs_exec), "deadlock": sim.deadlock})
+    if sim.wall_limit_hit and not sim.deadlock:
+        stats["uninformative"] = 1          # cut off by the harness's wall budget (machine under load): no verdict
+        return out, stats
     if sim.deadlock or sim.step_limit_hit:
         add("no_termination", f"execute() deadlocked / exceeded the step budget (deadlock={sim.deadlock})")
         return out, stats
